@@ -32,7 +32,9 @@ RULE = (
     "case = (configuration, schedule): 1-4 jobs x {timeout?, ignores SIGTERM?, Popen fails?, answer} x shutdown callers "
     "{none, wait=False, wait=True, two callers}; schedules = every schedule of the Lean model within a delay bound "
     "(<=2 quick, <=3 thorough) for several rotations of the default scheduler, plus random walks chosen on the real code; "
-    "a case is distinct by (variant, configuration, label sequence) and non-trivial when at least two threads interleave"
+    "a case is distinct by (variant, configuration, label sequence) and non-trivial when at least two threads interleave; "
+    "plus directed priority schedules (all 24 orders of submitters/shutdown callers/cancel tasks/workers, >=2 jobs), simulated "
+    "process-tree probes, and runs with real OS processes (single processes, shells with children, SIGTERM ignorers, wrappers)"
 )
 TRUSTED = [
     "the cooperative scheduler and the simulated Popen/psutil/threading/concurrent.futures objects of tools/props/c17.py "
@@ -45,6 +47,13 @@ ASSUMPTIONS = [
     "communicate() is assumed to return once the process is gone and cancel() to raise nothing but psutil.NoSuchProcess",
     "threads are fairly scheduled (progress statements are 'some step of the thread is enabled and its rank decreases')",
     "ThreadPoolExecutor in shutdown(wait=False) is modelled with one thread per cancel task (more interleavings than the pool)",
+    "the Lean model has one process per job; process trees (a child that ignores SIGTERM) are covered by direct property checks "
+    "only: simulated tree probes and real wrapper/child commands, verdict from process state (/proc: alive and no SIGKILL pending)",
+    "cancel() is only required to clean up a process tree that stands when it is called: a child forked by a SIGTERM-ignoring "
+    "solver during the 0.5 s grace period is missed by the pinned code (observed and counted, never judged; "
+    "replays/C17-cancel-late-fork.patch.diff)",
+    "real-subprocess verdicts never come from an elapsed-time threshold: readiness, survival and delivery are decided from "
+    "/proc state, future state and worker-thread liveness; waits that run out are counted as real:slow:* without verdict",
 ]
 
 KEY_SUBMIT = "submit-after-shutdown:flag-read-outside-lock"
@@ -196,8 +205,12 @@ class Job:
 class World:
     """one executor, its jobs and shutdown callers, with every blocking primitive under the scheduler"""
 
-    def __init__(self, halmos_mods, cfg: str, timeouts=None):
+    def __init__(self, halmos_mods, cfg: str, timeouts=None, tree=False):
         self.P, self.S = halmos_mods
+        # tree=True (probes outside the Lean model, which has one process per job): every solver process has one child
+        # process that ignores SIGTERM; `kids[i]` is its state
+        self.tree = tree
+        self.kids: dict[int, str] = {}
         jobs, waits = cfg.split(":")
         codes = jobs.split(".")
         timeouts = list(timeouts or [])
@@ -294,6 +307,8 @@ class World:
                 raise HarnessError(f"second Popen for job {i}")
             p = SimProc(w, i, cmd)
             w.procs[i] = p
+            if w.tree:
+                w.kids[i] = "running"
             return p
 
         import psutil as real_psutil
@@ -306,7 +321,8 @@ class World:
                 self.pid = pid
 
             def children(self, recursive=False):
-                return []
+                i = self.p.i
+                return [FakePsChild(i)] if w.kids.get(i) == "running" else []
 
             def terminate(self):
                 sched.park("term")
@@ -327,6 +343,31 @@ class World:
             def kill(self):
                 if self.p.state == "running":
                     self.p.state, self.p.rc = "killed", -9
+
+        class FakePsChild:
+            """descendant of the solver process that ignores SIGTERM (tree probes only)"""
+
+            def __init__(self, i):
+                self.i, self.pid = i, 2000 + i
+
+            def __eq__(self, other):
+                return isinstance(other, FakePsChild) and other.pid == self.pid
+
+            def __hash__(self):
+                return self.pid
+
+            def terminate(self):
+                sched.park("term")
+                if w.kids.get(self.i) != "running":
+                    raise real_psutil.NoSuchProcess(self.pid)
+
+            def is_running(self):
+                sched.park("kill")
+                return w.kids.get(self.i) == "running"
+
+            def kill(self):
+                if w.kids.get(self.i) == "running":
+                    w.kids[self.i] = "killed"
 
         fake_psutil = types.SimpleNamespace(
             Process=FakePsProcess, NoSuchProcess=real_psutil.NoSuchProcess, TimeoutExpired=real_psutil.TimeoutExpired,
@@ -589,6 +630,8 @@ class World:
             if p is None or p.state != "running":
                 raise HarnessError(f"{label} not enabled")
             p.state, p.rc = "exited", 0
+            if self.kids.get(p.i) == "running":
+                self.kids[p.i] = "exited"      # a solver that finishes by itself takes its worker child with it
             self.events.append((label, "exit"))
             return "exit"
         name, choice = (label[:-1], "timeout") if label.endswith("t") else (label, "ret")
@@ -726,7 +769,7 @@ class Run:
 TIMEOUT_POOL = [7.5]
 
 
-def run_real(cfg: str, chooser, max_steps=400, timeouts=None) -> Run:
+def run_real(cfg: str, chooser, max_steps=400, timeouts=None, tree=False) -> Run:
     """chooser(step_index, enabled_labels_sorted) -> label or None (stop)"""
     P, S = mods()
     r = Run(cfg)
@@ -735,7 +778,7 @@ def run_real(cfg: str, chooser, max_steps=400, timeouts=None) -> Run:
         h = sum(ord(ch) for ch in cfg)
         timeouts = [TIMEOUT_POOL[(h + 3 * n) % len(TIMEOUT_POOL)] for n in range(cfg.count(".") + 1)]
     r.timeouts = timeouts
-    w = World((P, S), cfg, timeouts)
+    w = World((P, S), cfg, timeouts, tree)
     try:
         w.start_threads()
         alive_after = {}       # k -> True once shutdown caller k has finished
@@ -823,6 +866,22 @@ def classify_alive(w: World, i: int, k: int) -> tuple[str, str]:
 
 def check_quiescence(w: World, r: Run, alive_after: dict):
     n = len(w.events) - 1
+    # process trees (probes): once a job has delivered, or shutdown(wait=False) has returned, no descendant is left
+    for i, st in w.kids.items():
+        if st != "running" or ("kid", i) in w.flagged:
+            continue
+        why = None
+        if any((not wt) and k in w.shout for k, wt in enumerate(w.waits)):
+            why = "shutdown-nowait"
+        elif w.setres.get(i, 0) >= 1 and not any(t.state != "finished" for t in w.sched.threads.values()):
+            # everything has finished (in particular every cancel() that was in progress)
+            why = "timeout" if i in w.timed_out else "result"
+        if why:
+            w.flagged.add(("kid", i))
+            r.spec.append((f"tree:descendant-alive-after-cancel:{why}",
+                           f"job {i}: the solver's child process (ignores SIGTERM) is still running after "
+                           f"{'its result was delivered' if why != 'shutdown-nowait' else 'shutdown(wait=False) returned'} "
+                           f"[step {n}]"))
     # bookkeeping: a future whose worker thread exists and that has not delivered yet must be known to the executor
     # (otherwise neither shutdown(wait=False) can cancel it nor shutdown(wait=True) wait for it)
     reg = w.registered()
@@ -1029,168 +1088,368 @@ def random_config(rng, max_jobs=4):
 # real subprocesses
 # --------------------------------------------------------------------------------------------------------------------
 
-def real_process_runs(ctx, n_runs, literals):
-    P, _S = mods()
-    rng = ctx.rng
-    trap = ["sh", "-c", "trap '' TERM; sleep 30"]
-    kinds = {
-        "true": (["true"], None), "false": (["false"], None), "sleep-short": (["sleep", "0.05"], None),
-        "sleep-long": (["sleep", "30"], None), "timeout": (["sleep", "30"], 0.05), "ignore-term": (trap, None),
-        "ignore-term-timeout": (trap, 0.05), "missing-binary": (["/nonexistent/c17-solver"], None),
-        "echo": (["sh", "-c", "echo unsat"], 5.0), "children": (["sh", "-c", "sleep 30 & sleep 30 & wait"], 0.1),
+SIGTERM_BIT = 1 << 14     # bit of SIGTERM (15) in the masks of /proc/<pid>/status
+SIGKILL_BIT = 1 << 8      # SIGKILL (9)
+
+
+def proc_info(pid: int):
+    """(cmdline list, state letter, SigIgn, pending) of a live process entry, or None"""
+    try:
+        with open(f"/proc/{pid}/cmdline", "rb") as fh:
+            cmd = [x.decode("utf-8", "replace") for x in fh.read().split(b"\0") if x]
+        st = {}
+        with open(f"/proc/{pid}/status") as fh:
+            for line in fh:
+                k, _, v = line.partition(":")
+                st[k] = v.strip()
+        return cmd, st.get("State", "?")[:1], int(st.get("SigIgn", "0"), 16), \
+            int(st.get("SigPnd", "0"), 16) | int(st.get("ShdPnd", "0"), 16)
+    except (OSError, ValueError):
+        return None
+
+
+def token_procs(token: str) -> dict:
+    """pid -> info of every process whose command line mentions `token` (each job's commands carry a unique token)"""
+    out = {}
+    me = str(__import__("os").getpid())
+    for name in __import__("os").listdir("/proc"):
+        if not name.isdigit() or name == me:
+            continue
+        info = proc_info(int(name))
+        if info and any(token in c for c in info[0]):
+            out[int(name)] = info
+    return out
+
+
+def survivors(token: str) -> dict:
+    """processes of the job that are alive and that nobody has killed: not zombie/dead and no SIGKILL pending.
+    Decided from process state, not from elapsed time."""
+    return {pid: i for pid, i in token_procs(token).items() if i[1] not in "ZX" and not (i[3] & SIGKILL_BIT)}
+
+
+class RealJob:
+    """one job with real OS processes. `tree` = (number of descendants that must exist, top-level ignores SIGTERM,
+    descendants ignore SIGTERM): the process tree the command builds; shutdown / the time limit only come after it stands"""
+
+    KINDS = {
+        # name: (argv with {t} = token, timeout, tree)
+        "true": (["true"], None, None),
+        "false": (["false"], None, None),
+        "missing-binary": (["/nonexistent/c17-solver"], None, None),
+        "sleep-short": (["sleep", "0.05"], None, None),
+        "echo": (["sh", "-c", "echo unsat"], 30.0, None),
+        "sleep-long": (["sleep", "{t}"], None, (0, False, False)),
+        "timeout": (["sleep", "{t}"], 0.05, (0, False, False)),
+        "ignore-term": (["sh", "-c", "trap '' TERM; sleep {t}"], None, (1, True, True)),
+        "ignore-term-timeout": (["sh", "-c", "trap '' TERM; sleep {t}"], 3.0, (1, True, True)),
+        "children": (["sh", "-c", "sleep {t} & sleep {t} & wait"], None, (2, False, False)),
+        "children-timeout": (["sh", "-c", "sleep {t} & sleep {t} & wait"], 3.0, (2, False, False)),
+        # wrapper that exits on SIGTERM, worker child that ignores it (a --solver-command launcher)
+        "wrapper-child-ignores": (["sh", "-c", "(trap '' TERM; exec sleep {t}) & wait"], None, (1, False, True)),
+        "wrapper-child-ignores-timeout": (["sh", "-c", "(trap '' TERM; exec sleep {t}) & wait"], 3.0, (1, False, True)),
     }
-    names = sorted(kinds)
+    SIMPLE = ("true", "false", "missing-binary", "sleep-short", "sleep-long", "timeout")
+    ENDLESS = ("sleep-long", "ignore-term", "children", "wrapper-child-ignores")
+
+    def __init__(self, P, kind, serial, escaped):
+        self.kind = kind
+        argv, self.timeout, self.tree = self.KINDS[kind]
+        self.token = f"3{serial % 7}.{serial:05d}{__import__('os').getpid() % 1000:03d}"
+        self.f = P.PopenFuture([a.replace("{t}", self.token) for a in argv], timeout=self.timeout)
+        self.count = [0]
+        real_set, real_cancel = self.f.set_result, self.f.cancel
+
+        def set_result(r):
+            self.count[0] += 1
+            return real_set(r)
+
+        def cancel():
+            try:
+                return real_cancel()
+            except BaseException as e:  # noqa: BLE001 - recorded (the pool of shutdown() would swallow it), re-raised
+                escaped.append(types.SimpleNamespace(exc_value=e))
+                raise
+
+        self.f.set_result, self.f.cancel = set_result, cancel
+        self.worker = None
+        self.t_submit = None
+        self.t_ready = None
+
+    def submit(self, ex):
+        before = set(threading.enumerate())
+        self.t_submit = time.time()
+        ex.submit(self.f)
+        new = [t for t in threading.enumerate() if t not in before]
+        self.worker = new[0] if len(new) == 1 else None
+
+    def ready(self) -> bool:
+        """the process tree stands (decided from /proc): all expected descendants exec'ed, signal dispositions in place"""
+        f = self.f
+        if f.done() or self.tree is None:
+            return True
+        if f.process is None:
+            return False
+        n, top_ign, desc_ign = self.tree
+        top = proc_info(f.process.pid)
+        if top is None:
+            return True   # already gone
+        if bool(top[2] & SIGTERM_BIT) != top_ign:
+            return False
+        desc = {pid: i for pid, i in token_procs(self.token).items() if pid != f.process.pid}
+        good = [i for i in desc.values() if i[0] and i[0][0] == "sleep" and bool(i[2] & SIGTERM_BIT) == desc_ign]
+        if len(good) == n and len(desc) == n:
+            self.t_ready = self.t_ready or time.time()
+            return True
+        return False
+
+    def cleanup(self):
+        import os
+        import signal
+        for pid in token_procs(self.token):
+            with __import__("contextlib").suppress(OSError):
+                os.kill(pid, signal.SIGKILL)
+        if self.f.process is not None:
+            with __import__("contextlib").suppress(Exception):
+                self.f.process.kill()
+
+
+def real_process_runs(ctx, n_runs, literals, forced=None):
+    P, _S = mods()
     # exceptions that escape a thread of the code under test (e.g. psutil failing while it scans /proc)
     escaped = []
     old_hook = threading.excepthook
     threading.excepthook = lambda a: escaped.append(a)
     try:
-        _real_process_runs(ctx, n_runs, literals, P, rng, kinds, names, escaped)
+        _real_process_runs(ctx, n_runs, P, ctx.rng, escaped, forced)
+        if not forced:
+            observe_late_fork(ctx, P)
     finally:
         threading.excepthook = old_hook
 
 
-def _real_process_runs(ctx, n_runs, literals, P, rng, kinds, names, escaped):
+LATE_FORK_WRAPPER = r"""
+import signal, time, subprocess, sys
+signal.signal(signal.SIGTERM, signal.SIG_IGN)
+open(sys.argv[1], "w").close()
+time.sleep(0.25)
+subprocess.run(["sleep", sys.argv[2]])
+"""
+
+
+def observe_late_fork(ctx, P):
+    """OBSERVATION ONLY (never a verdict): a top-level process that ignores SIGTERM and forks a child inside cancel()'s
+    0.5 s grace period. The code at the pinned commit lists the process tree once, before SIGTERM, so the child is not
+    force-killed, keeps the stdout pipe and blocks the worker in communicate() (replays/C17-cancel-late-fork.*)."""
+    import os
+    import sys
+    import tempfile
+    flag = tempfile.mktemp(prefix="c17_latefork_")
+    token = f"38.{os.getpid() % 100000:05d}77"
+    ex = P.PopenExecutor()
+    f = P.PopenFuture([sys.executable, "-c", LATE_FORK_WRAPPER, flag, token])
+    try:
+        ex.submit(f)
+        t_end = time.time() + 30
+        while not os.path.exists(flag) and time.time() < t_end:
+            time.sleep(0.005)
+        if not os.path.exists(flag):
+            ctx.count("real:observe:late-fork-child:setup-slow")
+            return
+        ex.shutdown(wait=False)
+        time.sleep(0.5)
+        left = [pid for pid, i in survivors(token).items() if i[0] and i[0][0] == "sleep"]
+        ctx.count("real:observe:late-fork-child:" + ("survives-cancel" if left else "killed"))
+        if left:
+            ctx.note("observation (no verdict): a child forked by a SIGTERM-ignoring solver during cancel()'s grace period "
+                     "survives shutdown(wait=False) and blocks result(); see replays/C17-cancel-late-fork.patch.diff")
+    except Exception as e:  # noqa: BLE001
+        ctx.count(f"real:observe:late-fork-child:error-{type(e).__name__}")
+    finally:
+        import signal
+        for pid in token_procs(token):
+            with __import__("contextlib").suppress(OSError):
+                os.kill(pid, signal.SIGKILL)
+        with __import__("contextlib").suppress(OSError):
+            os.unlink(flag)
+
+
+def _settled_survivors(jobs, patience=60.0):
+    """survivors per job, confirmed by two scans one second apart (same pid, still alive, still not killed).
+    Processes with a SIGKILL pending are waited for (up to `patience`) but never judged."""
+    t_end = time.time() + patience
+    while True:
+        first = {j: survivors(j.token) for j in jobs}
+        if not any(first.values()):
+            return {}
+        time.sleep(1.0)
+        second = {j: survivors(j.token) for j in jobs}
+        both = {j: sorted(set(first[j]) & set(second[j])) for j in jobs}
+        both = {j: v for j, v in both.items() if v}
+        if both or time.time() > t_end:
+            return both
+
+
+def _real_process_runs(ctx, n_runs, P, rng, escaped, forced=None):
+    variant = str(ctx.extra.get("variant", "000"))
+    names = sorted(RealJob.KINDS)
+    serial = [rng.randint(0, 50000)]
+
+    def make(kind):
+        serial[0] += 1
+        return RealJob(P, kind, serial[0], escaped)
+
+    directed = [
+        ("nowait", ["wrapper-child-ignores", "sleep-long"], False),
+        ("wait", ["wrapper-child-ignores-timeout", "echo"], False),
+        ("nowait", ["sleep-long", "sleep-long", "timeout"], True),
+        ("wait", ["echo", "timeout", "children-timeout"], False),
+        ("nowait", ["ignore-term", "children", "true"], False),
+    ]
+    if forced:
+        directed = forced
     for run in range(n_runs):
         del escaped[:]
-        mode = rng.choice(["nowait", "nowait", "wait"])
-        n = rng.randint(1, 4)
-        pool = [k for k in names if not (mode == "wait" and k in ("sleep-long", "ignore-term"))]
-        chosen = [rng.choice(pool) for _ in range(n)]
-        if run == 0:
-            mode, chosen = "nowait", ["sleep-long", "sleep-long", "timeout"]
-        if run == 1:
-            mode, chosen = "wait", ["echo", "timeout", "children"]
-        # `overlap`: call shutdown while worker threads may not have reached Popen yet (the cancel-before-Popen window);
-        # otherwise wait until every worker has started its process (side condition of the `_partial` theorem)
-        overlap = (run == 0) or rng.random() < 0.25
-        if overlap:
-            # commands that fork (sh -c ...) are left out here: cancel() lists the children once, a child forked
-            # after that survives and keeps the pipe open (OS-level race outside the model, see ASSUMPTIONS)
-            simple = ("true", "false", "sleep-short", "sleep-long", "timeout", "missing-binary")
-            chosen = [k if k in simple else ("sleep-short" if mode == "wait" else "sleep-long") for k in chosen]
+        if run < len(directed):
+            mode, chosen, overlap = directed[run]
+        else:
+            mode = rng.choice(["nowait", "nowait", "wait"])
+            pool = [k for k in names if not (mode == "wait" and k in RealJob.ENDLESS)]
+            chosen = [rng.choice(pool) for _ in range(rng.randint(1, 4))]
+            # `overlap`: call shutdown while worker threads may not have reached Popen yet; only single-process commands
+            # (a command that is still building its process tree when cancel() arrives is outside the property's
+            # assumptions: cancel() lists the tree once)
+            overlap = rng.random() < 0.25
+            if overlap:
+                chosen = [k if k in RealJob.SIMPLE else ("sleep-short" if mode == "wait" else "sleep-long") for k in chosen]
+        # at most one job with a 3 s time limit per run (keeps a run short)
+        seen_t = False
+        for n, k in enumerate(chosen):
+            if k.endswith("-timeout"):
+                if seen_t:
+                    chosen[n] = "timeout"
+                seen_t = True
         ex = P.PopenExecutor()
-        counts = []
-        futs = []
-        for kname in chosen:
-            cmd, to = kinds[kname]
-            if to is not None and literals and rng.random() < 0.3 and kname == "echo":
-                to = float(rng.choice(literals))
-            f = P.PopenFuture(list(cmd), timeout=to)
-            cnt = [0]
-            real = f.set_result
-
-            def counting(r, cnt=cnt, real=real):
-                cnt[0] += 1
-                return real(r)
-
-            f.set_result = counting
-            real_cancel = f.cancel
-
-            def cancel(real_cancel=real_cancel):
-                try:
-                    return real_cancel()
-                except BaseException as e:  # noqa: BLE001 - recorded (the pool of shutdown() would swallow it), re-raised
-                    escaped.append(types.SimpleNamespace(exc_value=e))
-                    raise
-
-            f.cancel = cancel
-            counts.append(cnt)
-            futs.append(f)
-            ex.submit(f)
-        if not overlap:
-            t_end = time.time() + 5
-            while time.time() < t_end and not all(f.process is not None or f.done() for f in futs):
-                time.sleep(0.002)
-            # let `sh -c` commands install their trap / fork their children
-            time.sleep(rng.choice([0.1, 0.15, 0.25]) if any(kinds[k][0][0] == "sh" for k in chosen) else rng.choice([0.0, 0.01, 0.1]))
-        lost = [k for k, f in zip(chosen, futs) if not f.done() and f not in list(ex.futures)]
-        if lost:
-            ctx.violation("bookkeeping:unfinished-future-dropped",
-                          f"real processes: accepted, unfinished futures {lost} are no longer in executor.futures",
-                          {"kind": "real", "mode": mode, "jobs": chosen, "overlap": overlap})
-        raised = None
-        try:
-            ex.shutdown(wait=(mode == "wait"))
-        except BaseException as e:  # noqa: BLE001
-            raised = e
-        if raised is None and mode == "wait" and not all(f.done() for f in futs):
-            ctx.violation("shutdown-wait:returned-before-accepted-job-done",
-                          "real processes: shutdown(wait=True) returned although an accepted job has not delivered its result",
-                          {"kind": "real", "mode": mode, "jobs": chosen, "overlap": overlap})
-
-        def dead_within(f, secs):
-            if f.process is None:
-                return True
-            try:
-                f.process.wait(timeout=secs)
-                return True
-            except subprocess.TimeoutExpired:
-                return False
-
-        # a SIGKILLed process needs a moment to disappear: "alive" = still there 2 s later
-        alive = [k for k, f in zip(chosen, futs) if not dead_within(f, 0 if raised is not None else 2.0)]
-        ctx.count(f"real:{mode}:{'overlap' if overlap else 'started'}")
-        for kname in chosen:
-            ctx.count(f"real-job:{kname}")
-        ctx.case(("real", mode, overlap, tuple(chosen)), nontrivial=len(chosen) > 1)
+        jobs = [make(k) for k in chosen]
         replay = {"kind": "real", "mode": mode, "jobs": chosen, "overlap": overlap}
-        time.sleep(0.01)
-        env_fault = [a for a in escaped if not isinstance(a.exc_value, (P.ShutdownError,))]
-        if env_fault or (raised is not None and mode == "nowait"):
-            # outside the stated assumptions (cancel() raised something else than psutil.NoSuchProcess, typically psutil
-            # tripping over an unrelated process while scanning /proc): recorded, not judged
-            kind = type(env_fault[0].exc_value).__name__ if env_fault else type(raised).__name__
-            ctx.count(f"real:assumption-broken:cancel-raised-{kind}")
-            ctx.note(f"real-process run {run}: exception {kind} escaped cancel()/worker thread; when this happens in the worker's "
-                     "`finally`, set_result is skipped and result() never returns (not judged: outside the assumptions)")
-            for f in futs:
-                if f.process is not None:
-                    with __import__("contextlib").suppress(Exception):
-                        f.process.kill()
-            continue
-        if raised is not None and mode == "wait":
-            ctx.count("real:shutdown-raised")
-            if alive:
-                ctx.violation(KEY_JOIN, f"real processes: shutdown(wait=True) raised {type(raised).__name__} while {alive} still run", replay)
-        elif alive and overlap and mode == "nowait":
-            key = KEY_CANCEL if str(ctx.extra.get("variant", "000"))[1] == "0" else "real:alive-after-shutdown-nowait-overlap"
-            ctx.violation(key, f"real processes: {alive} alive after shutdown(wait=False) returned (shutdown called right after submit)", replay)
-        elif alive:
-            ctx.violation(f"real:alive-after-shutdown-{mode}", f"processes {alive} alive after shutdown({mode}) returned", replay)
-        if alive or raised is not None:
-            for f in futs:
-                if f.process is not None:
-                    f.cancel()
-        # everything finishes now: results exactly once, timeouts are TimeoutExpired
-        deadline = time.time() + 10
-        for kname, f, cnt in zip(chosen, futs, counts):
-            try:
-                f.result(timeout=max(0.1, deadline - time.time()))
-                exc = None
-            except BaseException as e:  # noqa: BLE001
-                exc = e
-            if isinstance(exc, TimeoutError) and not isinstance(exc, subprocess.TimeoutExpired) and not f.done():
-                ctx.violation("real:result-never-delivered", f"{kname}: result() did not return within 10 s after shutdown", replay)
-                if f.process is not None:
-                    f.cancel()
-                continue
-            if cnt[0] != 1:
-                ctx.violation("real:result-once", f"{kname}: set_result executed {cnt[0]} times", replay)
-            if kname in ("timeout", "ignore-term-timeout", "children") and mode == "wait" and raised is None and not isinstance(exc, subprocess.TimeoutExpired):
-                ctx.violation("real:timeout-not-TimeoutExpired", f"{kname}: result() gave {exc!r} instead of raising TimeoutExpired", replay)
-            if kname == "missing-binary" and not isinstance(exc, FileNotFoundError):
-                ctx.violation("real:popen-error-lost", f"{kname}: result() gave {exc!r}", replay)
-            if kname == "echo" and exc is None and mode == "wait" and raised is None and f.result()[0] != "unsat\n":
-                ctx.violation("real:stdout-lost", f"echo: stdout {f.result()[0]!r}", replay)
-            if not dead_within(f, 2.0):
-                ctx.violation("real:alive-after-result", f"{kname}: process alive 2 s after its result was delivered", replay)
-                f.cancel()
+        ctx.count(f"real:{mode}:{'overlap' if overlap else 'started'}")
+        for k in chosen:
+            ctx.count(f"real-job:{k}")
+        ctx.case(("real", mode, overlap, tuple(chosen)), nontrivial=len(chosen) > 1)
         try:
-            ex.submit(P.PopenFuture(["true"]))
-            ctx.violation("real:submit-after-shutdown-accepted", "submit after shutdown returned was accepted", replay)
-        except P.ShutdownError:
-            pass
+            for j in jobs:
+                j.submit(ex)
+            slow = False
+            if not overlap:
+                t_end = time.time() + 60
+                while not all(j.ready() for j in jobs):
+                    if time.time() > t_end:
+                        slow = True
+                        break
+                    time.sleep(0.005)
+                # a time limit that fired before the tree stood: not judged
+                for j in jobs:
+                    if j.timeout and j.tree and j.tree[0] and not slow:
+                        if j.t_ready is None or j.t_ready - j.t_submit > j.timeout - 1.0:
+                            slow = True
+            if slow:
+                ctx.count("real:slow:setup-not-ready-in-time(no verdict)")
+                continue
+            lost = [j.kind for j in jobs if not j.f.done() and j.f not in list(ex.futures)]
+            if lost:
+                ctx.violation("bookkeeping:unfinished-future-dropped",
+                              f"real processes: accepted, unfinished futures {lost} are no longer in executor.futures", replay)
+            raised = None
+            try:
+                ex.shutdown(wait=(mode == "wait"))
+            except BaseException as e:  # noqa: BLE001
+                raised = e
+            time.sleep(0.01)
+            fault = [a for a in escaped if not isinstance(a.exc_value, P.ShutdownError)]
+            if fault or (raised is not None and mode == "nowait"):
+                # outside the stated assumptions (cancel() raised something else than psutil.NoSuchProcess, typically
+                # psutil tripping over an unrelated process while scanning /proc): recorded, not judged
+                kind = type(fault[0].exc_value).__name__ if fault else type(raised).__name__
+                ctx.count(f"real:assumption-broken:cancel-raised-{kind}")
+                ctx.note(f"real-process run {run}: exception {kind} escaped cancel()/worker thread (not judged)")
+                continue
+            if raised is not None:
+                ctx.count("real:shutdown-raised")
+            if raised is None and mode == "wait" and not all(j.f.done() for j in jobs):
+                ctx.violation("shutdown-wait:returned-before-accepted-job-done",
+                              "real processes: shutdown(wait=True) returned although an accepted job has not delivered its result",
+                              replay)
+
+            # ---- nothing of any job's process tree is alive once cancel()/shutdown has returned (decided by process state)
+            judged = jobs if raised is None else []
+            if mode == "wait":
+                # only jobs whose result is delivered have been cleaned up
+                judged = [j for j in judged if j.f.done()]
+            alive = _settled_survivors(judged)
+            if raised is not None and mode == "wait":
+                left = _settled_survivors(jobs, patience=5.0)
+                if left:
+                    ctx.violation(KEY_JOIN, f"real processes: shutdown(wait=True) raised {type(raised).__name__} while "
+                                            f"{[j.kind for j in left]} still run", replay)
+            for j, pids in alive.items():
+                top = j.f.process.pid if j.f.process is not None else None
+                what = "top-level process" if top in pids else "descendant process"
+                cmds = [" ".join(token_procs(j.token).get(p, ([], "", 0, 0))[0])[:60] for p in pids]
+                if overlap and mode == "nowait":
+                    key = KEY_CANCEL if variant[1] == "0" else "real:alive-after-shutdown-nowait-overlap"
+                elif what == "descendant process":
+                    path = "timeout" if (j.timeout and j.f.done()) else f"shutdown-{mode}"
+                    key = f"real:descendant-alive-after-cancel:{path}"
+                else:
+                    key = f"real:alive-after-shutdown-{mode}"
+                ctx.violation(key, f"real processes: job {j.kind}: {what} {pids} ({cmds}) alive, not killed, after "
+                                   f"{'shutdown(wait=' + str(mode == 'wait') + ')' } returned / the job's cancel() finished", replay)
+            for j in alive:
+                j.cleanup()
+
+            # ---- every result is delivered exactly once (decided by future + worker-thread state, not by a deadline)
+            t_end = time.time() + 90
+            for j in jobs:
+                f = j.f
+                while not f.done() and time.time() < t_end and (j.worker is None or j.worker.is_alive()):
+                    time.sleep(0.01)
+                if not f.done():
+                    if j.worker is not None and not j.worker.is_alive():
+                        time.sleep(0.05)
+                        if not f.done():
+                            ctx.violation("real:result-never-delivered",
+                                          f"{j.kind}: the worker thread has ended without set_result", replay)
+                    elif j in alive:
+                        pass   # consequence of the surviving process reported above
+                    else:
+                        ctx.count("real:slow:result-pending-after-90s(no verdict)")
+                    continue
+                try:
+                    res, exc = f.result(timeout=0), None
+                except BaseException as e:  # noqa: BLE001
+                    res, exc = None, e
+                if j.count[0] != 1:
+                    ctx.violation("real:result-once", f"{j.kind}: set_result executed {j.count[0]} times", replay)
+                if mode == "wait" and raised is None:
+                    if j.timeout and j.kind != "echo" and not isinstance(exc, subprocess.TimeoutExpired):
+                        ctx.violation("real:timeout-not-TimeoutExpired",
+                                      f"{j.kind}: result() gave {exc!r} instead of raising TimeoutExpired", replay)
+                    if j.kind == "echo" and (exc is not None or res[0] != "unsat\n"):
+                        ctx.violation("real:stdout-lost", f"echo: result {res!r} / {exc!r}", replay)
+                if j.kind == "missing-binary" and not isinstance(exc, FileNotFoundError):
+                    ctx.violation("real:popen-error-lost", f"{j.kind}: result() gave {exc!r}", replay)
+            # once delivered, the job's own cleanup has run: nothing of its tree is left
+            late = _settled_survivors([j for j in jobs if j.f.done() and j not in alive], patience=30.0)
+            for j, pids in late.items():
+                ctx.violation("real:alive-after-result", f"{j.kind}: processes {pids} alive, not killed, after the result "
+                                                         "was delivered", replay)
+            try:
+                ex.submit(P.PopenFuture(["true"]))
+                ctx.violation("real:submit-after-shutdown-accepted", "submit after shutdown returned was accepted", replay)
+            except P.ShutdownError:
+                pass
+        finally:
+            for j in jobs:
+                j.cleanup()
 
 
 # --------------------------------------------------------------------------------------------------------------------
@@ -1204,7 +1463,8 @@ def report(ctx, variant, r: Run, source):
             continue
         seen.add(key)
         ctx.violation(key, what, {"kind": "schedule", "variant": variant, "cfg": r.cfg, "labels": r.labels,
-                                  "timeouts": getattr(r, "timeouts", None), "source": source})
+                                  "timeouts": getattr(r, "timeouts", None), "source": source,
+                                  "tree": source.startswith("tree-probe")})
 
 
 def follow(labels):
@@ -1294,9 +1554,9 @@ def correspond(ctx):
     rng = ctx.rng
     delays = ctx.scale(2, 3)
     cfgs = base_configs()
-    n_random_cfg = ctx.scale(10, 60)
+    n_random_cfg = ctx.scale(8, 60)
     cfgs += [random_config(rng) for _ in range(n_random_cfg)]
-    cap = ctx.scale(50, 400)           # schedules kept per (cfg, rotation)
+    cap = ctx.scale(35, 400)           # schedules kept per (cfg, rotation)
     reqs, meta = [], []
     for cfg in cfgs:
         njobs = cfg.split(":")[0].count(".") + 1
@@ -1333,6 +1593,7 @@ def correspond(ctx):
     ctx.note(f"enumerated {total_enumerated} schedules over {len(reqs)} (configuration, rotation) pairs, "
              f"{exhaustive_cfgs} pairs run in full (cap {cap})")
 
+    ctx.note(f"t+{time.time() - ctx.t0:.0f}s: enumerated schedules done")
     # --- 2b. directed priority schedules, chosen on the real code (independent of the model's labels) -------------------
     # every order of the thread classes {submitters, workers, shutdown callers, cancel tasks}: e.g. "s,h,c,w" = all
     # submits (a later submit happens while the earlier jobs' workers are still before Popen), then the shutdowns and
@@ -1340,10 +1601,10 @@ def correspond(ctx):
     import itertools
     dcfgs = ["tifu.tifu:0", "tifu.Tifs:1", "tifu.tifu.tifu:0", "tifu.Tifu.tIfk:01", "tifs.tiFu.tifu:1", "Tifu.tifu:00",
              "tifu.tifu.Tifu.tifu:0", "tifu.tifu:-"]
-    dcfgs += [c for c in (random_config(rng) for _ in range(ctx.scale(6, 40))) if "." in c]
+    dcfgs += [c for c in (random_config(rng) for _ in range(ctx.scale(3, 40))) if "." in c]
     for cfg in dcfgs:
         for order in itertools.permutations("shcw"):
-            for reverse_ids in (False, True):
+            for reverse_ids in ((False, True) if order[0] == "s" or ctx.tier != "quick" else (False,)):
                 def pchooser(n, en, order=order, reverse_ids=reverse_ids):
                     if not en:
                         return None
@@ -1357,8 +1618,32 @@ def correspond(ctx):
                 runs.append((r, "directed:" + "".join(order)))
     ctx.count("directed-configs", len(dcfgs))
 
+    ctx.note(f"t+{time.time() - ctx.t0:.0f}s: directed schedules done")
+    # --- 2c. process-tree probes (outside the Lean model: it has one process per job) ---------------------------------
+    # every solver process has a child that ignores SIGTERM; after cancel() — via shutdown(wait=False) or via the job's
+    # time limit — no descendant may be left. Same priority schedules, property checked directly, no model comparison.
+    for cfg in ["tifu:0", "Tifu:-", "tifu.Tifu:0", "TIfu.tifu:0", "Tifs.tifu:1"]:
+        for order in itertools.permutations("shcw"):
+            def tchooser(n, en, order=order, cfg=cfg):
+                if not en:
+                    return None
+                # the time limit fires as soon as it can; a process only exits by itself when nothing else can move
+                for cls in order:
+                    cand = [e for e in en if e[0] == cls and e.endswith("t")] or [e for e in en if e[0] == cls]
+                    if cand:
+                        return cand[0]
+                return en[0]
+
+            r = run_real(cfg, tchooser, tree=True)
+            ctx.case(("tree", cfg, order))
+            ctx.count("source:tree-probe")
+            report(ctx, variant, r, "tree-probe:" + "".join(order))
+            if r.error:
+                mismatches.append(f"[tree-probe] cfg {cfg}: {r.error}")
+
+    ctx.note(f"t+{time.time() - ctx.t0:.0f}s: tree probes done")
     # --- 3. random walks chosen on the real code ------------------------------------------------------------------------
-    n_walks = ctx.scale(300, 6000)
+    n_walks = ctx.scale(250, 6000)
     for _ in range(n_walks):
         cfg = random_config(rng) if rng.random() < 0.7 else rng.choice(base_configs())
         stick = rng.choice([0.0, 0.5, 0.8, 0.95])
@@ -1376,6 +1661,7 @@ def correspond(ctx):
         runs.append((r, "random-walk"))
     ctx.count("source:random-walk", n_walks)
 
+    ctx.note(f"t+{time.time() - ctx.t0:.0f}s: random walks done")
     # --- 4. compare everything with the model -----------------------------------------------------------------------
     reqs = [f"run {variant} {r.cfg} {','.join(r.labels) if r.labels else '-'}" for r, _ in runs]
     t0 = time.time()
@@ -1411,8 +1697,9 @@ def correspond(ctx):
             mismatch = f"[{source}] cfg {r.cfg}: {bad}"
     ctx.sample({"cfg": runs[-1][0].cfg, "labels": runs[-1][0].labels, "final": runs[-1][0].final})
 
+    ctx.note(f"t+{time.time() - ctx.t0:.0f}s: model comparison done")
     # --- 5. real subprocesses ------------------------------------------------------------------------------------------
-    real_process_runs(ctx, ctx.scale(16, 300), literals)
+    real_process_runs(ctx, ctx.scale(12, 250), literals)
 
     if mismatch:
         mismatches.append(mismatch)
@@ -1437,25 +1724,13 @@ def follow_loose(labels):
 def replay(ctx, data) -> bool:
     d = data.get("replay", data)
     if d.get("kind") == "real":
-        P, _S = mods()
-        before = len(ctx.violations)
-        # real-process findings are timing dependent: run the same job mix a few times
-        kinds = d["jobs"]
-        for _ in range(5):
-            ex = P.PopenExecutor()
-            cmds = {"timeout": (["sleep", "30"], 0.05), "missing-binary": (["/nonexistent/c17-solver"], None)}
-            futs = [P.PopenFuture(*cmds.get(k, (["sleep", "0.3"], None))) for k in kinds]
-            for f in futs:
-                ex.submit(f)
-            try:
-                ex.shutdown(wait=d["mode"] == "wait")
-            except BaseException:  # noqa: BLE001
-                if any(f.process is not None and f.process.poll() is None for f in futs):
-                    ctx.violation(data.get("key", "real"), "reproduced", d)
-            for f in futs:
-                f.cancel()
-        return len(ctx.violations) > before
-    r = run_real(d["cfg"], follow_loose(d["labels"]), timeouts=d.get("timeouts"))
+        # the same job mix, three times (real processes: the overlap cases depend on timing)
+        forced = [(d["mode"], list(d["jobs"]), bool(d.get("overlap")))] * 3
+        ctx.extra.setdefault("variant", detect_variant())
+        real_process_runs(ctx, len(forced), [], forced=[(m, list(j), o) for m, j, o in forced])
+        want = data.get("key")
+        return any(v["key"] == want for v in ctx.violations) if want else bool(ctx.violations)
+    r = run_real(d["cfg"], follow_loose(d["labels"]), timeouts=d.get("timeouts"), tree=bool(d.get("tree")))
     keys = {k for k, _ in r.spec}
     want = data.get("key")
     return (want in keys) if want else bool(keys)
